@@ -115,11 +115,6 @@ def leafJson (l : Leaf) : Json :=
 def pathRouterJson (r : PathRouter) : Json :=
   Json.mkObj [("routes", Json.arr (r.leaves.map leafJson).toArray), ("root", optNatJ r.rootFb)]
 
-/-- Does the side condition of the partial theorems (`Table.NoNestedSuffix`) hold? -/
-def tableNns : Table → Bool
-  | .agnostic r => noNestedSuffixB r.rset
-  | .domains ds _ => noNestedSuffixB (domRset ds) && ds.all (fun d => noNestedSuffixB d.router.rset)
-
 def tableJson : Table → Json
   | .agnostic r => Json.mkObj [("kind", "agnostic"), ("router", pathRouterJson r)]
   | .domains ds f => Json.mkObj [("kind", "domains"), ("root", optNatJ f),
@@ -141,7 +136,7 @@ def bpJson (j : Json) : Json :=
     | some ops, some reqs =>
       match compile ops with
       | .error e => Json.mkObj [("r", "bp"), ("verdict", rejectStr e)]
-      | .ok t => Json.mkObj [("r", "bp"), ("verdict", "ok"), ("table", tableJson t), ("nns", Json.bool (tableNns t)),
+      | .ok t => Json.mkObj [("r", "bp"), ("verdict", "ok"), ("table", tableJson t), ("nns", Json.bool t.noNestedSuffixB),
           ("out", Json.arr (reqs.map (fun q => outcomeJson (t.dispatch q))).toArray)]
     | _, _ => Json.mkObj [("r", "bad-op"), ("why", "ops/reqs")]
 
